@@ -295,9 +295,26 @@ Theorem ranking_cannot_overflow :
 Proof. exact pick_never_overflows. Qed.
 Print Assumptions ranking_cannot_overflow.
 
-(** 13b. The hypothesis on the weights is needed: RelayWeightsProposal stores any five decimal strings
-    (no validation), and five weights of 10^77 make every pick on that chain panic with ordinary
-    tables.  Reached only through governance; where the panic lands is C09's matter (design/C14.md). *)
+(** 13a. Since the C09 repair (c16efebc) Keeper.SetRelayWeights - the only writer of the weights besides
+    the literal defaults, and what the proposal handler and genesis call - validates before it writes:
+    every weight a decimal in [0, 10^6] (translator facts pinned by weights_validation_is /
+    relay_weights_writers_are).  So in every state reached through the setter, whatever sequence of
+    accepted and refused proposals came before, the premise of 13 holds and the pick cannot panic in
+    the ranking arithmetic (tables non-negative). *)
+Theorem validated_weights_cannot_overflow :
+  (forall sn ms fs w chain req ts,
+     nonneg_tables ms fs -> valid_weights w = true ->
+     pick_ov sn ms fs w chain req ts = pick sn ms fs w chain req ts) /\
+  (forall sn ms fs sets chain req ts,
+     nonneg_tables ms fs ->
+     pick_ov sn ms fs (stored_weights sets) chain req ts = pick sn ms fs (stored_weights sets) chain req ts).
+Proof. exact (conj pick_never_overflows_validated pick_never_overflows_stored). Qed.
+Print Assumptions validated_weights_cannot_overflow.
+
+(** 13b. The hypothesis on the weights is needed: five weights of 10^77 make every pick on that chain
+    panic with ordinary tables.  Before c16efebc a RelayWeightsProposal could store them; now the setter
+    refuses them (huge_weights_refused_by_the_setter), so this is a witness about RAW stored state (a store
+    written by older code; replayed through hook VerifC09StoreRelayWeights).  See design/C14.md. *)
 Theorem ranking_overflow_needs_bounded_weights_refuted :
   nonneg_tables ov_ms ov_fs /\ in_range (w_fee ov_w) = true /\
   pick_ov ov_sn ov_ms ov_fs ov_w 1 None 1700000000 = PickPanic.
